@@ -81,6 +81,9 @@ Leaves == {
   E(Ref("l\n1"), <<QId("l\n1")>>, FALSE, TRUE),
   E(StrL("it's \"q\" \\ \n end"), <<Str("it's \"q\" \\ \n end")>>, FALSE, TRUE),
   E(StrL("2000-01-01T00:00:00Z"), <<Str("2000-01-01T00:00:00Z")>>, FALSE, TRUE),
+  \* control characters the lexer takes raw inside quotes (only newline, backslash and the quote have an escape)
+  E(StrL("tab\there"), <<Str("tab\there")>>, FALSE, TRUE),
+  E(Ref("t\tb"), <<QId("t\tb")>>, FALSE, TRUE),
   E(BoolL(TRUE), <<Kw("true")>>, FALSE, TRUE),
   E(BoolL(FALSE), <<Kw("FALSE")>>, FALSE, TRUE),
   E(DurL(NsOf("1ns")), <<Dur("1ns")>>, FALSE, TRUE),
